@@ -630,9 +630,90 @@ func scenario(x *explore.X, product bool, ncfg int) {
 	}
 }
 
+// ---- two uploads at once, one origin not reading ------------------------------------------------------------------
+
+// twoUploads: client A uploads 70000 bytes to an origin connection that does not read (4 KiB socket
+// buffer), so the proxy is blocked in the middle of forwarding the body; meanwhile client B uploads other
+// content completely; then A's origin reads on. Each origin connection must hold exactly its client's body.
+func twoUploads(x *explore.X) {
+	viaUp := x.ChooseFree("config", 2) == 1
+	fa := []string{"cl", "chunked"}[x.ChooseFree("framing-a", 2)]
+	fb := []string{"cl", "chunked"}[x.ChooseFree("framing-b", 2)]
+	sizeB := []int{40000, 5}[x.ChooseFree("size-b", 2)]
+	opts := world.Options{}
+	addr := originHost + ":80"
+	e := &env{}
+	if viaUp {
+		opts.Upstream, addr, e.viaUpstream = "http://up.test:8080", "up.test:8080", true
+	}
+	w, err := world.Start(opts)
+	if err != nil {
+		x.Failf("harness/start", "%v", err)
+		return
+	}
+	nh, _ := w.Hop(addr, nil)
+	mk := func(framing string, size int, salt byte, path string) reqSpec {
+		return reqSpec{proto: "HTTP/1.1", method: "POST", form: 1, pathq: path, framing: framing, body: h1x.Pattern(size, salt)}
+	}
+	ra, rb := mk(fa, 70000, 13, "/a"), mk(fb, sizeB, 19, "/b")
+	clA, _ := w.Client()
+	clB, _ := w.Client()
+	// A: the head first, so that the proxy connects to the next hop; that connection then stops reading
+	ma := ra.msg()
+	wireA := append(append([]byte{}, ma.Head()...), ma.BodyWire()...)
+	clA.Send(wireA[:len(ma.Head())+10])
+	nh.Poll()
+	if len(nh.Raw) != 1 {
+		x.Failf("next-hop-count", "next hop has %d connections after A's request head; client A got %q", len(nh.Raw), world.Clip(clA.Recv()))
+		return
+	}
+	oa := nh.Raw[0]
+	oa.Recv()
+	oa.Hold = true
+	oa.C.SetLimit(4096)
+	clA.Send(wireA[len(ma.Head())+10:])
+	mb := rb.msg()
+	clB.Send(append(append([]byte{}, mb.Head()...), mb.BodyWire()...))
+	nh.Poll()
+	if len(nh.Raw) != 2 {
+		x.Failf("next-hop-count", "next hop has %d connections after B's request", len(nh.Raw))
+		return
+	}
+	check := func(who string, raw *world.Peer, r reqSpec, cl *world.Peer) {
+		st := httpwire.ParseRequests(raw.Recv())
+		if st.State == "syntax" || len(st.Msgs) != 1 {
+			x.Failf("two-uploads/message", "upload %s (framing-a=%s framing-b=%s via upstream=%v): next hop holds %d complete requests (state %q, %s)", who, fa, fb, viaUp, len(st.Msgs), st.State, st.Err)
+			return
+		}
+		e.clientIP = cl.C.LocalAddr().String()
+		e.clientIP = e.clientIP[:strings.LastIndex(e.clientIP, ":")]
+		expectForwarded(x, e, r, st.Msgs[0])
+	}
+	x.Check()
+	check("B (while A's origin is stalled)", nh.Raw[1], rb, clB)
+	oa.Hold = false
+	oa.C.SetLimit(0)
+	oa.Recv()
+	world.Settle(0)
+	if !x.Failed() {
+		check("A (after its origin resumed)", oa, ra, clA)
+	}
+	x.Outcome(fmt.Sprintf("up=%v a=%s b=%s/%d", viaUp, fa, fb, sizeB))
+	clA.Close()
+	clB.Close()
+	if err := w.Stop(); err != nil {
+		x.Failf("shutdown", "%v", err)
+	}
+	nh.Shutdown()
+	world.Settle(5 * time.Second)
+	if l := world.Leaks(); l != "" {
+		x.Failf("goroutine-leak", "%s", l)
+	}
+}
+
 func TestC01(t *testing.T) {
 	s := explore.NewSuite(t, "C01", "exploration",
-		"one client connection carrying 0-2 history requests (5 kinds) and one request under test = method(6) x target form(3-4) x path/query(7) x header shape(24) x body framing(3) x size(9) x chunking(4) x version(2) x write segmentation(9) x configuration(direct, upstream HTTP proxy, MITM'd CONNECT tunnel to a TLS origin) x configured --header rule set(7); all combinations with at most D deviations from the default request (D=3 quick, 4 thorough); plus the full product body framing(2) x size(9) x chunking(4) x segmentation(9) x history(11) x configuration(2 quick, 3 thorough) for POST are executed on the real HTTPProxy over the in-memory network and every request captured at the next hop is compared with expectForwarded; non-trivial = at least one forwarded request was compared")
+		"one client connection carrying 0-2 history requests (5 kinds) and one request under test = method(6) x target form(3-4) x path/query(7) x header shape(24) x body framing(3) x size(9) x chunking(4) x version(2) x write segmentation(9) x configuration(direct, upstream HTTP proxy, MITM'd CONNECT tunnel to a TLS origin) x configured --header rule set(7); all combinations with at most D deviations from the default request (D=3 quick, 4 thorough); plus the full product body framing(2) x size(9) x chunking(4) x segmentation(9) x history(11) x configuration(2 quick, 3 thorough) for POST are executed on the real HTTPProxy over the in-memory network and every request captured at the next hop is compared with expectForwarded; non-trivial = at least one forwarded request was compared; plus (two-uploads) two connections uploading at once, one next-hop connection not reading in the middle of a 70000-byte body while the other upload completes, framing x framing x size x {direct, upstream proxy}, both compared exactly")
 	s.Assume = []string{"simnet models TCP (in-order, reliable, segment boundaries preserved per write)", "httpwire (independent strict parser) is trusted", "crypto/tls of the Go toolchain is used by the scripted TLS peers"}
 	bubble := func(f func(x *explore.X)) func(x *explore.X) {
 		return func(x *explore.X) { world.Run(t, x, func() { f(x) }) }
@@ -643,5 +724,6 @@ func TestC01(t *testing.T) {
 		Run: bubble(func(x *explore.X) { scenario(x, true, 2) })})
 	s.Add(explore.Scenario{Name: "body-product+mitm", Remote: true, Tiers: []string{"thorough"},
 		Run: bubble(func(x *explore.X) { scenario(x, true, 3) })})
+	s.Add(explore.Scenario{Name: "two-uploads", Remote: true, Run: bubble(twoUploads)})
 	s.Main()
 }
